@@ -168,9 +168,10 @@ def _payload_flags(data):
     try:
         m.ParseFromString(data or b"")
     except Exception:
-        return (0, 0, 0)
+        return (0, 0, 0, 0)
+    more = any(d.name != "sender_key_distribution_message" for d, _ in m.ListFields())
     return (1 if m.conversation else 0, 1 if m.HasField("extended_text_message") else 0,
-            1 if m.HasField("sender_key_distribution_message") else 0)
+            1 if m.HasField("sender_key_distribution_message") else 0, 1 if more else 0)
 
 
 def node_features(node, enqueued=False):
@@ -181,14 +182,14 @@ def node_features(node, enqueued=False):
         if c.tag == "proto":
             proto = c
             break
-    conv = ext = skdm = 0
+    conv = ext = skdm = more = 0
     if proto is not None and node.tag == "message":
-        conv, ext, skdm = _payload_flags(proto.data)
+        conv, ext, skdm, more = _payload_flags(proto.data)
     return [node.tag.encode(), _o(g("xmlns")), _o(g("type")), _o(g("id")), _o(g("from")), _o(g("to")),
             _o(g("participant")), [],
             [[c.tag.encode(), _o(c.attributes.get("call-id"))] for c in node.children],
             1 if proto is not None else 0, _o(proto.attributes.get("mediatype")) if proto is not None else [],
-            conv, ext, skdm, 1 if enqueued else 0]
+            conv, ext, skdm, more, 1 if enqueued else 0]
 
 
 def entity_features(entity):
@@ -202,7 +203,7 @@ def entity_features(entity):
             return None
     mro = [c.__name__.encode() for c in type(entity).__mro__ if c is not object]
     return [entity.getTag().encode(), _o(call("getXmlns")), _o(call("getType")), _o(call("getId")), [],
-            _o(call("getTo")), [], mro, [], 0, [], 0, 0, 0, 0]
+            _o(call("getTo")), [], mro, [], 0, [], 0, 0, 0, 0, 0]
 
 
 # ------------------------------------------------------------------ observations (model output)
